@@ -33,10 +33,12 @@ pub mod nom {
         pub fn to_string(&self) -> String { unimplemented!() }
     }
     pub type IResult<I, O> = Result<(I, O), Err<error::Error<I>>>;
+    pub mod bytes { pub mod complete { pub use crate::nom_c::take; } }
     pub mod multi { pub use crate::nom_c::count; pub use crate::nom_c::many0; }
     pub mod combinator { pub use crate::nom_c::map; pub use crate::nom_c::cond; pub use crate::nom_c::complete; }
 }
 pub use nom::IResult;
+pub use nom_c::{take, count, many0, complete, map, cond};
 pub use nom::Err as NomErr;
 pub use nom::error::{Error as NomError, ErrorKind};
 
